@@ -33,7 +33,13 @@ RULE = (
     "params, repetitions, rep, instance) so any mis-routing changes the data; simulators run deterministic circuits "
     "(X^k / +k mod d between measurements) whose records are computed by a classical interpreter. Non-trivial = "
     ">=2 repetitions with different rows, or width>=2 with a non-palindromic row, or width>64, or a qudit column "
-    "(samplers: >=2 resolvers or >=2 programs with differing shapes/repetitions)."
+    "(samplers: >=2 resolvers or >=2 programs with differing shapes/repetitions). Sweepables are drawn as trees (Points, "
+    "Linspace, Zip, ZipLongest, Product, Concat, ListSweep, dict, ParamResolver, dict-of-lists, nested lists/tuples) in which "
+    "every element draws its own key ORDER, values mix int/float, and a list may hold an element over a subset of the symbols "
+    "(sample must then raise its documented ValueError); an independent expansion gives the assignments. long: repetition "
+    "counts from a fixed table (0 .. 131073, around 2^12, 50000, 2^16, 10^5; not read from the code), 1-2 keys of 1-3 "
+    "digits, every aggregate view of the whole result, of a prefix, of the sum of parts cut at table points and of the JSON "
+    "round trip, plus a ZerosSampler / Simulator run of that length."
 )
 ASSUMPTIONS = [
     "numpy array construction / comparison and pandas indexing are trusted; all integer arithmetic of the oracle is "
